@@ -36,6 +36,10 @@
                                                                     = SectionItems' mutators as list-to-list functions
                               (FuncsPinSteering, FuncsPinBind, FuncsPinWriteData; FuncsPinMutators imports Items: not
                                re-exported here, like FuncsPinSection)
+     inspect_pin              DataRead.inspect (inspect_loop / all_equal / drop_hyphen_subs) on Sections.body_lines
+                                                                    = the whole of reader.inspect_data_section, the file object
+                                                                      being the list of the lines that remain
+                              (FuncsPinInspect; imports DataRead / Sections: not re-exported here)
 
    One file per pinned function or group (FuncsPinConfigure, FuncsPinSectionType, FuncsPinRoute,
    FuncsPinSectionParse, FuncsPinItems, FuncsPinStandardize, FuncsPinWriter, FuncsPinNum, FuncsPinParser, FuncsPinParserInit,
